@@ -104,3 +104,41 @@ Section NpReduce.
     flat <- seq_res (map g (all_indices osh)) ;;
     Ok (mkDense osh flat).
 End NpReduce.
+
+(* ------------------------------------------------------------------ mean / var (exact arithmetic)
+   numpy.mean = sum / N and numpy.var = sum((a - mean)^2) / max(N - ddof, 0), N the number of reduced
+   cells, over a value type with exact division by an integer (Proofs instantiate it with Qc).
+   std = sqrt(var) is not rational and is not modelled. *)
+Section NpMeanVar.
+  Variable V : Type.
+  Variable add sub mul : V -> V -> V.
+  Variable zero : V.
+  Variable divn : V -> Z -> V.           (* exact division by an integer count *)
+
+  Definition np_sum := np_reduce V add (fun v => v) (Some zero).
+
+  Definition np_mean (ax : axis_arg) (keepdims : bool) (sh : shape) (f : idx -> V)
+    : res (shape * (idx -> res V)) :=
+    axes <- np_norm_axes (Z.of_nat (length sh)) ax ;;
+    r <- np_sum ax keepdims sh f ;;
+    let '(osh, g) := r in
+    Ok (osh, fun oix => v <- g oix ;; Ok (divn v (size (sel 0 axes sh)))).
+
+  (* the index of the keepdims array that a full index broadcasts against *)
+  Definition np_bcast_idx (axes : list Z) (ix : idx) : idx :=
+    map (fun p => if np_mem (fst p) axes then 0 else snd p) (combine (zrange (Z.of_nat (length ix))) ix).
+
+  Definition np_var (ddof : Z) (ax : axis_arg) (keepdims : bool) (sh : shape) (f : idx -> V)
+    : res (shape * (idx -> res V)) :=
+    axes <- np_norm_axes (Z.of_nat (length sh)) ax ;;
+    m <- np_mean ax true sh f ;;
+    let '(_, mu) := m in
+    (* deviation squared; a cell whose mean is undefined cannot occur (np_sum has an identity) *)
+    let dev := fun ix => match mu (np_bcast_idx axes ix) with
+                         | Ok u => mul (sub (f ix) u) (sub (f ix) u)
+                         | Raise _ => zero
+                         end in
+    r <- np_sum ax keepdims sh dev ;;
+    let '(osh, g) := r in
+    Ok (osh, fun oix => v <- g oix ;; Ok (divn v (Z.max (size (sel 0 axes sh) - ddof) 0))).
+End NpMeanVar.
